@@ -33,6 +33,10 @@ def plan(tier, seed):
     for big in (60, 400):
         for di in range(len(big_deletions(big))):
             scs.append(dict(big=big, d=di))
+    for n in (4, 5, 6):
+        for vi in (0, 1, 3):
+            scs.append(dict(n=n, v=vi, twice=True))
+    scs += [dict(shared=i) for i in range(4)]
     for n in (5000, 9000):
         for di in range(len(chain_deletions(n))):
             scs.append(dict(chain=n, d=di))
@@ -121,9 +125,74 @@ def run(sc, ctx):
                 check_after(a, ref, sc, what, out)
         out['outcomes']['large structure'] = 1; out['nontrivial'] = 1
         return out
+    out = dict(evals=0, compared=0, violations=[], outcomes={}, hashes=set(), nontrivial=0)
+    if 'shared' in sc:
+        # two objects (or two attributes of one object) that were given the same term array by attribute assignment, as user code
+        # and the repository's own tests do: deleting in one must leave the other as it was
+        i = sc['shared']
+        from mc.checks.C06 import with_filler
+        a = with_filler(mk(6, True), 1, False, False); b = with_filler(mk(6, True, tag='uv'), 1, False, False)          # atom 0 is a free He atom: deleting it removes no term row
+        if i == 0:
+            b.bonds = a.bonds
+        elif i == 1:
+            b.angles = a.angles; b.dihedrals = a.dihedrals
+        elif i == 2:
+            a.impropers = a.dihedrals; a.improper_types = a.dihedral_types; a.improper_type_coeffs = a.dihedral_type_coeffs; a.extra_improper_fields = a.extra_dihedral_fields.copy()
+        else:
+            b.bonds = a.bonds; b.bond_types = a.bond_types
+        refa = RefStructure.of(a); refb = RefStructure.of(b); sb = raw_state(b)
+        _, err = call(a.__delitem__, [0]); refa.delete([0])
+        out['evals'] += 1; out['compared'] += 2; out['hashes'].add(h64(('shared', i)))
+        if err:
+            out['violations'].append(viol('delete-exact', 'shared-exc:' + exc_sig(err), 'del atoms[[0]] raised %r' % (err[0],), sc)); return out
+        check_after(a, refa, sc, 'del atoms[[0]] (a free ion; a term array of this object is shared with another attribute / object)', out)
+        if i != 2 and raw_state(b) != sb:
+            d = [j for j, (x, y) in enumerate(zip(sb, raw_state(b))) if x != y]
+            out['violations'].append(viol('delete-exact', 'shared-array', 'deleting atom 0 (a free ion, in no term) of one structure changed another structure that had been given the same term array (raw-state fields %r)' % (d,), sc))
+        elif i != 2:
+            _, err = call(b.__delitem__, [0]); refb.delete([0])
+            if err:
+                out['violations'].append(viol('delete-exact', 'shared-exc:' + exc_sig(err), 'del on the second structure raised %r' % (err[0],), sc)); return out
+            check_after(b, refb, sc, 'del atoms[[0]] on the second structure (which had been given the first one\'s term array)', out)
+        out['outcomes']['shared term array'] = 1; out['nontrivial'] += 1
+        return out
     tables, xf, dup, kinds = variants()[sc['v']]
     base = mk(sc['n'], tables=tables, xf=xf, dup=dup, kinds=kinds)
-    out = dict(evals=0, compared=0, violations=[], outcomes={}, hashes=set(), nontrivial=0)
+    if sc.get('twice'):
+        # every ordered pair of deletions (first <= 2 atoms, second <= 2 of the survivors) and pop sequences on ONE object, and on a copy() taken in between
+        n = sc['n']
+        firsts = [list(S) for S in ordered_subsets(n) if len(S) <= 2]
+        for S1 in firsts:
+            n1 = n - len(S1)
+            for S2 in [list(S) for S in ordered_subsets(n1) if len(S) <= 2][:12] + [[n1 - 1], [0, n1 - 1]]:
+                if not S2 or max(S2) >= n1 or len(set(S2)) != len(S2):
+                    continue
+                for via_copy in (0, 1):
+                    a = base.copy() if False else mk(sc['n'], tables=tables, xf=xf, dup=dup, kinds=kinds); ref = RefStructure.of(a)
+                    _, err = call(a.__delitem__, list(S1)); ref.delete(S1)
+                    if err:
+                        continue           # single deletions are judged above
+                    if via_copy:
+                        a = a.copy()
+                    _, err = call(a.__delitem__, list(S2)); ref.delete(S2)
+                    out['evals'] += 2; out['compared'] += 1; out['hashes'].add(h64(('twice', n, sc['v'], tuple(S1), tuple(S2), via_copy)))
+                    what = 'del atoms[%s] then%s del atoms[%s]' % (S1, ' copy() and' if via_copy else '', S2)
+                    if err:
+                        out['violations'].append(viol('delete-exact', 'twice-exc:' + exc_sig(err), '%s: the second deletion raised %r' % (what, err[0]), sc)); continue
+                    check_after(a, ref, sc, what, out)
+                    out['nontrivial'] += 1
+        for seq in ([None, None], [0, 0], [1, None], [None, 0], [2, 0], [-2, 1]):
+            a = mk(sc['n'], tables=tables, xf=xf, dup=dup, kinds=kinds); ref = RefStructure.of(a); m = sc['n']; ok = True
+            for arg in seq:
+                _, err = call(a.pop) if arg is None else call(a.pop, arg)
+                ref.delete([m - 1 if arg is None else arg % m]); m -= 1
+                if err:
+                    out['violations'].append(viol('delete-exact', 'twice-exc:' + exc_sig(err), 'pop sequence %r raised %r' % (seq, err[0]), sc)); ok = False; break
+            out['evals'] += 2; out['compared'] += 1
+            if ok:
+                check_after(a, ref, sc, 'pop sequence %r' % (seq,), out)
+        out['outcomes']['two deletions on one object'] = 1
+        return out
     if sc.get('pop'):
         n = sc['n']
         for arg in [None] + list(range(-n, n)):
